@@ -69,7 +69,7 @@ def decode(p, is_bytes):
             if len(h) == 8 and all(x in HEX for x in h):
                 v = int(h, 16)
                 if v > 0x10FFFF:
-                    raise Predicted('ValueError')
+                    raise Predicted('SyntaxError')
                 out.append(chr(v))
                 i += 10
             else:
@@ -187,7 +187,7 @@ def work(item, N):
     return res
 
 
-TOKENS = ['\\x41', '\\x2a', '\\x5c', '\\x2f', '\\101', '\\0', '\\52', '\\777', '\\u0041', '\\U00000041', '\\N{DIGIT ONE}', '\\N{ASTERISK}', '\\n', '\\t', '\\a',
+TOKENS = ['\\x7b', '\\x7d', '\\x2c', '\\x7c', '\\173', '\\54', '\\N{LEFT CURLY BRACKET}', ',', '\\x41', '\\x2a', '\\x5c', '\\x2f', '\\101', '\\0', '\\52', '\\777', '\\u0041', '\\U00000041', '\\N{DIGIT ONE}', '\\N{ASTERISK}', '\\n', '\\t', '\\a',
           '\\\\', '\\*', '\\x', '\\x4', '\\u12', '\\U0000004', '\\N', '\\N{', '\\N{}', '\\N{NOPE}', 'a', '*', '[', ']', '/', '4', '1', 'x', '?', '\\/', '\\e', '\\8',
           '\\u', '\\U', '{', '}', '\\[', '!(', ')', '|']
 CHARS = ['\\', 'x', 'u', 'U', 'N', 'a', 'n', '0', '1', '7', '8', '4', 'f', '{', '}', '/', '*', '[', ']']
@@ -232,6 +232,11 @@ def build_items(ctx, rnd):
         if k % 2 == 0:
             items.append(('raw', 'fn', p, 0, True))
             items.append(('plain', 'fn', p, F.FORCEWIN if k % 4 == 0 else 0, True))
+        if any(x in p for x in ('7b', '7d', '2c', '7c', '173', '175', '54', '174', '{', '|', 'N{')) or k % 7 == 0:
+            items.append(('raw', 'fn', p, F.BRACE, False))
+            items.append(('raw', 'fn', p, F.SPLIT | F.EXTMATCH, False))
+            items.append(('raw', 'gl', p, G.BRACE | G.SPLIT, False))
+            items.append(('raw', 'fn', p, F.BRACE | F.SPLIT, True))
         if k % 3 == 0:
             items.append(('raw', 'gl', p, [G.GLOBSTAR, G.FORCEWIN, G.EXTGLOB | G.DOTGLOB][k % 9 // 3], False))
             items.append(('plain', 'gl', p, G.FORCEWIN if k % 2 else 0, k % 6 == 0))
@@ -280,8 +285,10 @@ def run(ctx):
                'steps': [{'as': 'ok', 'call': 'engine.replayfn.rawchars_agree', 'args': [kind, mode, p, flags, is_bytes, res.get('name')]}],
                'assert': 'ok == True'}
         common.confirm(ctx, rep)
+    walk = walk_side(ctx)
     ctx.coverage.update({
-        'evaluations': q['sat'] + q['unsat'] + q['unknown'] + sum(exc_cases.values()), 'distinct_nontrivial': len(distinct),
+        'walk_side': {k: walk[k] for k in ('evaluations', 'distinct_nontrivial', 'combos', 'solver_calls', 'traces_validated_against_impl', 'samples')},
+        'evaluations': q['sat'] + q['unsat'] + q['unknown'] + sum(exc_cases.values()) + walk['evaluations'], 'distinct_nontrivial': len(distinct) + walk['distinct_nontrivial'],
         'rule': 'one obligation per (kind, mode, pattern, flags, str/bytes); non-trivial = the reference pattern differs from the input (something had '
                 'to be decoded / unescaped) and the language is non-empty, or an exception class was predicted and observed',
         'samples': samples, 'exception_cases': exc_cases, 'obligations': len(results), 'queries': q, 'solver_time_s': round(solver_s, 2),
@@ -290,3 +297,24 @@ def run(ctx):
         'known_region_hits': region_hits, 'exhaustive': not ctx.inconclusive, 'outside_claim': ['p is enumerated, not symbolic', 'WcMatch entry point (same WcRegexp objects)'],
     })
     ctx.assumptions += ['z3 QF_BV', 're._parser AST == what _sre executes', 'the hand-written decoder is the reference reading of the statement']
+
+
+def walk_side(ctx):
+    """E3: glob() with RAWCHARS on symbolic trees - inclusion and exclude= patterns decode like the decoded patterns behave."""
+    from engine import fsdriver
+    from wcmatch import glob as G
+    S = G.GLOBSTAR
+    combos = []
+    ts = ['flat', 'nest', 'meta', 'hid'] if ctx.quick else ['flat', 'nest', 'meta', 'hid', 'hid2', 'same', 'case', 'link1']
+    cases = [('\\x61*', None, 0), ('*', '\\x61*', 0), ('*', '\\141', 0), ('**', '\\x61/*', S), ('\\x2a', None, 0), ('*', '\\x2a/x', S), ('*', '\\x6', 0), ('\\x6', None, 0),
+             ('*', '\\N{LATIN SMALL LETTER A}*', 0), ('[\\x61-\\x62]', '\\x62', 0), ('\\x61/\\x78', None, 0), ('*/*', '\\x61/\\x2a', 0), ('*', '\\u0061', 0),
+             ('\\x61|\\x62', '\\x62', G.SPLIT), ('{\\x61,b}', None, G.BRACE), ('*', '{\\x61,f}', G.BRACE), ('a\\x5cb', None, 0), ('*', '\\x5bx\\x5d', 0)]
+    for pat, ex, f in cases:
+        for t in ts:
+            combos.append(('c20fs', t, (pat, ex, f)))
+    saved = ctx.coverage
+    ctx.coverage = {}
+    fsdriver.run_property(ctx, combos, None, 3000 if ctx.quick else 60000, lambda p: f'pattern={p[0]!r} exclude={p[1]!r} flags={p[2]:#x}', known_from=('C20',))
+    walk = ctx.coverage
+    ctx.coverage = saved
+    return walk
